@@ -1,11 +1,11 @@
 SPECIFICATION Spec
 CONSTANTS
-  Contents <- C1
+  Contents <- C5
   BoundModes <- BM1
-  MenuKind = "focus"
-  MaxDepth = 5
+  MenuKind = "general"
+  MaxDepth = 6
   StartChain = FALSE
-  EmitMin = 0
+  EmitMin = 6
   Emit = TRUE
 INVARIANT BagMatches
 INVARIANT ListMatches
